@@ -49,6 +49,7 @@ def body_factory(tier, seed):
             return
         V.run_correspondence(rep, rows, "C04", PROP)
         cold_orders(rep)
+        V.cold_cross_versions(rep, PROP)
         # through the real endpoints: invalid handler results become CALLERRORs, invalid requests are not written
         g = GD.Gen(tier, seed)
         dcases = [c for c in g.stratum_handled("all" if tier == "thorough" else 10) if c[0] in ("ok", "bad-res", "skip")]
